@@ -151,6 +151,19 @@ func runC17(c *Ctx) {
 			}
 		}
 	}
+	// header lines without any cell above a valid delimiter row
+	for _, h := range []string{"|", "||", "| |", " | ", "|  |"} {
+		for dc := 1; dc <= 3; dc++ {
+			for _, pre := range []string{"", "> ", "intro\n"} {
+				dl := "|" + strings.Repeat("-|", dc)
+				doc := pre + h + "\n" + strings.TrimPrefix(pre, "intro\n") + dl + "\n" + strings.TrimPrefix(pre, "intro\n") + strings.TrimSuffix(strings.Repeat("y|", dc), "|") + "\n\nzqmismatch\n"
+				if h == "| |" && dc == 1 || h == "|  |" && dc == 1 || h == " | " && dc == 1 {
+					continue // one (empty) cell: a legitimate one-column header
+				}
+				items = append(items, docItem{"header-mismatch", []byte(doc)})
+			}
+		}
+	}
 	for _, it := range collectDocs(c, docOpts{corpus: true, random: 2000, randLines: 3000}, nil) {
 		if bytes.Contains(it.doc, []byte("|")) || bytes.Contains(it.doc, []byte("-")) {
 			items = append(items, it)
@@ -186,7 +199,7 @@ func runC17(c *Ctx) {
 			}
 		}
 		// constructed mismatch documents (stream "header-mismatch"): no table at all
-		if bytes.HasPrefix(d, []byte("hm")) && len(shapes) > 0 {
+		if (bytes.HasPrefix(d, []byte("hm")) || bytes.HasSuffix(d, []byte("zqmismatch\n"))) && len(shapes) > 0 {
 			return fmt.Sprintf("a header whose cell count differs from the delimiter row became a table; output %.300q", out), true
 		}
 		return "", len(shapes) > 0 || bytes.Contains(d, []byte("-|"))
